@@ -186,7 +186,7 @@ def cv_obligations():
 
 
 def c11_obligations():
-    return utils_obligations() + cv_obligations()
+    return utils_obligations() + cv_obligations() + cvsplit_obligations()
 
 
 CHAIN_FUNCS = ["Chain.predict", (os.path.join("verde", "base", "utils.py"), "check_data")]
